@@ -8,6 +8,7 @@ CONSTANTS
   FIXOHEXP = TRUE
   FIXOHFLG = TRUE
   FIXOHSEC = TRUE
+  PEERIMPL = FALSE
   XorAcc <- ConcXor
 INVARIANTS TErrIsAtomic TMonotone TEgressForward TXoverForward TPosition
 POSTCONDITION TraceAccepted
